@@ -42,6 +42,10 @@ type op struct {
 	name string
 	gen  func(t *rapid.T) (args [][]byte, classes []string, nontrivial bool)
 	run  func(args [][]byte) [][]byte
+	// cold: fixed requests run once, before any generated case, as the FIRST uses of the op in every process
+	// (lazily initialised tables differ between code paths only on a first use); phase 0 requests of all ops run
+	// before phase 1 requests
+	cold [2][][][]byte
 }
 
 var (
@@ -262,6 +266,36 @@ func differential(t *rapid.T, names []string, test string) {
 		cl = append(cl, "panics_in_all_variants")
 	}
 	rep.Case(test, key, nt, cl...)
+}
+
+// coldPrologue runs the fixed first-use requests of the selected ops in this process and in every worker and
+// compares them like generated cases. Odd PRNG shards swap the two phases, so both orders of first use are seen.
+func coldPrologue(t *testing.T, names []string, test string) {
+	phases := []int{0, 1}
+	if strings.HasPrefix(os.Getenv("VERIF_SHARD"), "1/") || strings.HasPrefix(os.Getenv("VERIF_SHARD"), "3/") {
+		phases = []int{1, 0}
+	}
+	sorted := append([]string(nil), names...)
+	sort.Strings(sorted)
+	for _, ph := range phases {
+		for _, name := range sorted {
+			for i, args := range ops[name].cold[ph] {
+				r := req{Op: name, Args: args}
+				local := exec1(r)
+				for _, w := range workers {
+					got, err := w.call(r)
+					if err != nil {
+						t.Fatalf("worker %s died on cold request %d of op %s: %v", w.name, i, name, err)
+					}
+					if !sameResp(local, got) {
+						t.Fatalf("C09: FIRST USE of op %s (cold request %d, phase %d) differs between default(asm) and %s: %s\n  asm:    %s\n  %s: %s\n  args: %s",
+							name, i, ph, w.name, firstDiff(local, got), describe(local), w.name, describe(got), describe(resp{Out: args}))
+					}
+				}
+				rep.Case(test, fmt.Sprintf("cold %s phase=%d #%d", name, ph, i), true, "cold_first_use", fmt.Sprintf("cold_phase_order:%v", phases))
+			}
+		}
+	}
 }
 
 func namesWithPrefix(p string) []string {
